@@ -82,7 +82,7 @@ class Stats:
             outcome.get("fired"),
             [(a, core.digest(b)) for a, b in (outcome.get("blocks") or [])],
             outcome.get("labels"),
-            sorted((k, core.digest(v)) for k, v in (outcome.get("outs") or {}).items()),
+            sorted((outcome.get("outs_digest") or {}).items(), key=str) if outcome.get("outs_digest") is not None else sorted((k, core.digest(v)) for k, v in (outcome.get("outs") or {}).items()),
         )
         self.io_ops += len(outcome.get("events") or ())
         self.steps += int(outcome.get("steps") or 0)
